@@ -245,19 +245,28 @@ def locate_table(repo):
                         open_call = it.context_expr
     if open_call is None or not open_call.args:
         raise AnalysisError("%s: cannot find the open(...) feeding json.load" % CG_REL)
+    path_expr = open_call.args[0]
+    # the path may be built first and bound to a name: follow (single) module-level assignments
+    for _ in range(3):
+        if isinstance(path_expr, ast.Name):
+            defs_ = [n for n in ast.walk(scope) if isinstance(n, ast.Assign) and len(n.targets) == 1 and isinstance(n.targets[0], ast.Name) and n.targets[0].id == path_expr.id]
+            if len(defs_) == 1:
+                path_expr = defs_[0].value
+                continue
+        break
     names = [
-        c.value for c in ast.walk(open_call.args[0])
+        c.value for c in ast.walk(path_expr)
         if isinstance(c, ast.Constant) and isinstance(c.value, str) and c.value.endswith(".json")
     ]
     if len(names) != 1:
         raise AnalysisError("%s: file name of the table not a single '*.json' literal in %s" % (CG_REL, norm_text(open_call)))
     base = names[0].lstrip("/")
     # the path is built relative to the module's directory (os.path.dirname(__file__))
-    txt = norm_text(open_call.args[0])
+    txt = norm_text(path_expr)
     anchored = "__file__" in txt or any(
         isinstance(v, ast.AST) and "__file__" in norm_text(v)
         for k, v in mod.toplevel_assign.items()
-        if k in {x.id for x in ast.walk(open_call.args[0]) if isinstance(x, ast.Name)}
+        if k in {x.id for x in ast.walk(path_expr) if isinstance(x, ast.Name)}
     )
     if not anchored:
         raise AnalysisError("%s: table path %s is not anchored at the module directory" % (CG_REL, txt))
